@@ -511,18 +511,38 @@ func sameValue(a, b ssa.Value) bool {
 	return false
 }
 
-// isCounterLoad: a load of the named result n (the running byte counter) of tar.
+// isCounterLoad: a load of the running byte counter of tar - its first (named) result, whatever
+// it is called - or, inside a new helper, a parameter that is bound to such a load at the call.
 func isCounterLoad(v ssa.Value) bool {
-	u, ok := stripConv(v).(*ssa.UnOp)
+	v = stripConv(v)
+	if p, ok := v.(*ssa.Parameter); ok {
+		as := boundArgs(p)
+		if len(as) == 0 {
+			return false
+		}
+		for _, a := range as {
+			if !isCounterLoad(a) {
+				return false
+			}
+		}
+		return true
+	}
+	counterName := func(fn *ssa.Function) string {
+		if fn == nil || fn.Signature.Results().Len() == 0 {
+			return ""
+		}
+		return fn.Signature.Results().At(0).Name()
+	}
+	u, ok := v.(*ssa.UnOp)
 	if !ok || u.Op != token.MUL {
-		// n may be an SSA register when no defer spills it
-		if p, ok := stripConv(v).(*ssa.Phi); ok && p.Comment == "n" {
+		// the counter may be an SSA register when no defer spills it
+		if p, ok := v.(*ssa.Phi); ok && p.Comment != "" && p.Comment == counterName(p.Parent()) {
 			return true
 		}
 		return false
 	}
 	al, ok := u.X.(*ssa.Alloc)
-	return ok && al.Comment == "n"
+	return ok && al.Comment != "" && al.Comment == counterName(al.Parent())
 }
 
 // encodedType returns the static type of the element passed to Encode.
@@ -554,7 +574,7 @@ func c13ByteCounter(c *Ctx) {
 			return false
 		}
 		al, ok := st.Addr.(*ssa.Alloc)
-		if !ok || al.Comment != "n" {
+		if !ok || !isCounterCell(al) {
 			return false
 		}
 		bo, ok := st.Val.(*ssa.BinOp)
@@ -577,7 +597,7 @@ func c13ByteCounter(c *Ctx) {
 								direct = true
 							}
 							if st, ok := r2.(*ssa.Store); ok {
-								if al, ok := st.Addr.(*ssa.Alloc); ok && al.Comment == "n" && st.Val == ssa.Value(ex) {
+								if al, ok := st.Addr.(*ssa.Alloc); ok && isCounterCell(al) && st.Val == ssa.Value(ex) {
 									direct = true
 								}
 							}
@@ -734,3 +754,9 @@ func c13Grammar(c *Ctx) {
 }
 
 func strconvUnquote(s string) (string, error) { return strconv.Unquote(s) }
+
+// isCounterCell: the cell of tar's first named result (the byte counter).
+func isCounterCell(al *ssa.Alloc) bool {
+	fn := al.Parent()
+	return fn != nil && fn.Signature.Results().Len() > 0 && al.Comment != "" && al.Comment == fn.Signature.Results().At(0).Name()
+}
